@@ -1,6 +1,13 @@
 //! Recorder: writes the op stream (for the Lean driver), what the implementation did, the
 //! implementation-level oracle failures and the coverage statistics of a run.
 use std::collections::{BTreeMap, HashSet};
+use std::sync::atomic::{AtomicU64, Ordering};
+use std::sync::Mutex;
+
+/// progress counter and the ops of the case in progress, shared with the watchdog thread (main.rs):
+/// if no op completes for a while the code under test hangs, and the watchdog reports the case.
+pub static PROGRESS: AtomicU64 = AtomicU64::new(0);
+pub static CURRENT_CASE: Mutex<Vec<String>> = Mutex::new(Vec::new());
 use std::fs::File;
 use std::io::{BufWriter, Write};
 
@@ -91,6 +98,15 @@ impl Rec {
         writeln!(self.ops, "{}", op).unwrap();
         writeln!(self.out, "{}", impl_out).unwrap();
         self.n_ops += 1;
+        PROGRESS.fetch_add(1, Ordering::Relaxed);
+        if let Ok(mut c) = CURRENT_CASE.lock() {
+            if op.starts_with("case ") {
+                c.clear();
+            }
+            if c.len() < 400 {
+                c.push(op.to_string());
+            }
+        }
         if self.pending_nt_op {
             self.pending_nt_op = false;
             self.nontrivial.insert(fnv(0xcbf29ce484222325, op));
@@ -105,6 +121,15 @@ impl Rec {
             }
         } else {
             self.cur_case.push(op.to_string());
+        }
+    }
+
+    /// Tell the watchdog which call is about to be made (recorded only if it never returns).
+    pub fn about_to(what: &str) {
+        if let Ok(mut c) = CURRENT_CASE.lock() {
+            if c.len() < 401 {
+                c.push(format!("# in progress: {}", what));
+            }
         }
     }
 
